@@ -171,3 +171,82 @@ Theorem cov_sample_order X X' i j : Permutation X X' -> cov_code X i j == cov_co
 Proof.
   intro H. unfold cov_code. rewrite (sumprod_perm X X' i j H), (Permutation_length H). reflexivity.
 Qed.
+
+(* ================================================================== *)
+(* 5. the stored form of a count table and the weight scale            *)
+(* ================================================================== *)
+Notation roweq := (Forall2 Qeq).
+
+Lemma roweq_refl r : roweq r r.
+Proof. induction r; constructor; [reflexivity|assumption]. Qed.
+Lemma roweq_sym r s : roweq r s -> roweq s r.
+Proof. induction 1; constructor; [symmetry|]; assumption. Qed.
+Lemma roweq_trans r s t : roweq r s -> roweq s t -> roweq r t.
+Proof.
+  intro H. revert t. induction H; intros t Ht; inversion Ht; subst; constructor.
+  - etransitivity; eassumption.
+  - apply IHForall2. assumption.
+Qed.
+Lemma roweq_map (f g : Q -> Q) r s :
+  (forall x y, x == y -> f x == g y) -> roweq r s -> roweq (map f r) (map g s).
+Proof. intros Hf H. induction H; simpl; constructor; [apply Hf|]; assumption. Qed.
+
+Lemma any_nonzero_false row : any_nonzero row = false -> roweq (repeat 0 (length row)) row.
+Proof.
+  unfold any_nonzero. induction row as [|x row IH]; simpl; intro H; [constructor|].
+  apply Bool.orb_false_iff in H. destruct H as [Hx Hr]. constructor; [|apply IH; exact Hr].
+  apply Bool.negb_false_iff in Hx. unfold Qeqb in Hx. apply Qeq_bool_iff in Hx. symmetry. exact Hx.
+Qed.
+
+(* what is read back is what was written: rows the file leaves out hold zeros only, whatever the magnitudes *)
+Theorem roundtrip_row_id row : roweq (roundtrip_row any_nonzero row) row.
+Proof.
+  unfold roundtrip_row, store_row. destruct (any_nonzero row) eqn:E; simpl.
+  - apply roweq_refl.
+  - apply any_nonzero_false. exact E.
+Qed.
+Theorem roundtrip_id T : Forall2 roweq (roundtrip any_nonzero T) T.
+Proof. unfold roundtrip. induction T; simpl; constructor; [apply roundtrip_row_id|assumption]. Qed.
+
+(* hence reading back commutes with a weight factor ... *)
+Theorem roundtrip_row_scale k row :
+  roweq (roundtrip_row any_nonzero (scale_row k row)) (scale_row k (roundtrip_row any_nonzero row)).
+Proof.
+  eapply roweq_trans; [apply roundtrip_row_id|]. unfold scale_row.
+  apply roweq_map; [intros x y E; rewrite E; reflexivity|]. apply roweq_sym, roundtrip_row_id.
+Qed.
+(* ... and the normalised counts computed from a table that went through a file do not depend on the factor *)
+Theorem roundtrip_row_norm_scale k n row : ~ k == 0 -> ~ n == 0 ->
+  roweq (map (fun x => x / (k * n)) (roundtrip_row any_nonzero (scale_row k row)))
+        (map (fun x => x / n) (roundtrip_row any_nonzero row)).
+Proof.
+  intros Hk Hn.
+  apply roweq_trans with (map (fun x => x / (k * n)) (scale_row k row)).
+  { apply roweq_map; [intros x y E; rewrite E; reflexivity|]. apply roundtrip_row_id. }
+  apply roweq_trans with (map (fun x => x / n) row).
+  { unfold scale_row. rewrite map_map. apply roweq_map; [|apply roweq_refl].
+    intros x y E. rewrite E. field. split; assumption. }
+  apply roweq_map; [intros x y E; rewrite E; reflexivity|]. apply roweq_sym, roundtrip_row_id.
+Qed.
+
+(* a selection with an absolute threshold, however small, is not compatible with the weight scale: some table
+   is read back differently after all its weights were multiplied by a positive factor *)
+Theorem roundtrip_threshold_refuted eps : 0 < eps ->
+  exists row k, 0 < k /\
+    ~ roweq (roundtrip_row (any_above eps) (scale_row k row)) (scale_row k (roundtrip_row (any_above eps) row)).
+Proof.
+  intro He. exists [2 * eps], (1 # 2). split; [reflexivity|].
+  assert (P2 : 0 <= 2 * eps) by (apply Qmult_le_0_compat; [discriminate|apply Qlt_le_weak; exact He]).
+  assert (P1 : 0 <= (1 # 2) * (2 * eps)) by (apply Qmult_le_0_compat; [discriminate|exact P2]).
+  assert (A : Qltb eps (Qabs (2 * eps)) = true).
+  { apply Qltb_lt. rewrite Qabs_pos by exact P2.
+    setoid_replace eps with (1 * eps) at 1 by ring. apply Qmult_lt_compat_r; [exact He|reflexivity]. }
+  assert (B : Qltb eps (Qabs ((1 # 2) * (2 * eps))) = false).
+  { destruct (Qltb eps (Qabs ((1 # 2) * (2 * eps)))) eqn:E; [|reflexivity].
+    apply Qltb_lt in E. rewrite Qabs_pos in E by exact P1.
+    setoid_replace ((1 # 2) * (2 * eps)) with eps in E by ring. exfalso. exact (Qlt_irrefl _ E). }
+  unfold roundtrip_row, store_row, any_above, scale_row. cbn [map existsb length]. rewrite A, B.
+  cbn [orb restore_row repeat map length]. intro H. inversion H as [|x y l l' Hxy Hl]; subst.
+  assert (E : eps == 0) by (setoid_replace eps with ((1 # 2) * (2 * eps)) by ring; symmetry; exact Hxy).
+  rewrite E in He. exact (Qlt_irrefl _ He).
+Qed.
